@@ -605,18 +605,31 @@ Definition get_string_fcn (c : cty) (hd : bool) (src : option (list Z)) (base : 
   end.
 
 (* ------------------------------------------------------------------ convert_number.c *)
-(* float targets go to strtof/strtod/strtold: the libc result is an oracle input *)
-Record flt_oracle := mkOracle { fo_end : nat; fo_overflow : bool }.
+(* float targets go to strtof/strtod/strtold.  What libc answered is an oracle input: the end
+   pointer, whether errno is ERANGE afterwards, and the class of the value returned (the
+   value itself is printed by the driver from the same oracle).  Everything the library does
+   with these three is transcribed:
+       errno = 0; tmp = strtod(src, &end);
+       if (errno == ERANGE && (tmp == HUGE_VAL || tmp == -HUGE_VAL)) return BadValue;
+       if (end == src) { only white space ? 0 : BadType }
+       if (val) *val = tmp;  return end - src;                                          *)
+Inductive fcls := FcFinite | FcPosInf | FcNegInf | FcNaN.
+Record flt_oracle := mkOracle { fo_end : nat; fo_erange : bool; fo_cls : fcls }.
+
+(* tmp == HUGE_VAL || tmp == -HUGE_VAL *)
+Definition is_huge (k : fcls) : bool := match k with FcPosInf | FcNegInf => true | _ => false end.
+(* a finite numeral beyond the range of the type, of either sign *)
+Definition fo_overflow (o : flt_oracle) : bool := fo_erange o && is_huge (fo_cls o).
 
 Definition convert_float_text (hd : bool) (src : list Z) (o : flt_oracle) : tres :=
   let s := cstr src in
   match s with
   | [] => TEmpty
   | _ =>
+    if fo_overflow o then TRefused BadValue else
     match fo_end o with
     | O => if all_space s then TEmpty else TRefused BadType
-    | n => if fo_overflow o then TRefused BadValue          (* ERANGE and +-HUGE_VAL *)
-           else TDone (if hd then StOrc else StNone) n     (* value = the oracle's, printed by the driver *)
+    | n => TDone (if hd then StOrc else StNone) n     (* value = the oracle's, printed by the driver *)
     end
   end.
 
@@ -667,7 +680,7 @@ Definition convert_string (from : option (list Z)) (t : tty) (hd : bool) (o : fl
     | _ =>
       let '(k, txt) := skip_space s in
       (* the oracle describes libc on the whole string; strtod skips the same k spaces *)
-      let o' := mkOracle (fo_end o - k)%nat (fo_overflow o) in
+      let o' := mkOracle (fo_end o - k)%nat (fo_erange o) (fo_cls o) in
       match convert_number (Some txt) t hd o' with
       | TRefused e => TRefused e
       | TFault => TFault
